@@ -117,7 +117,7 @@ def gen_case(c, g):
             ops += [dict(op=c.rng.choice(["raw", "full"]), n=i), dict(op="assign", n=i, name=s_, v=v),
                     dict(op="seal", n=i), dict(op="full", n=i)]
     for _ in range(c.rng.randint(3, 9)):
-        k = c.rng.choices(["assign", "meta", "pre", "full", "raw", "seal", "jobpath", "resubmit"], [6, 3, 2, 4, 2, 1, 1, 1])[0]
+        k = c.rng.choices(["assign", "meta", "pre", "full", "raw", "seal", "jobpath", "resubmit"], [6, 3, 3, 4, 2, 1, 1, 1])[0]
         i = c.rng.randrange(n)
         cls = desc["nodes"][i]["cls"]
         if k == "resubmit":
@@ -138,7 +138,11 @@ def gen_case(c, g):
         elif k == "meta":
             ops.append(dict(op="meta", n=i, flag=c.rng.choice([True, False, None])))
         elif k == "pre":
-            if light:
+            donors = [a["n"] for a in desc["actions"] if a["a"] == "pre"]
+            if donors and c.rng.random() < 0.4:
+                # the other entry point: add_pretasks_from(a configuration that holds pre-tasks)
+                ops.append(dict(op="prefrom", n=i, donor=c.rng.choice(donors)))
+            elif light:
                 ops.append(dict(op="pre", n=i, ids=c.rng.sample(light, 1)))
         elif k == "jobpath":
             if cls in TASKS:
@@ -161,8 +165,8 @@ def g_sop(o):
         return f"(SAssign {gnat(o['n'])} {gbytes(o['name'].encode())}%N {identgen.g_value(v)})"
     if k == "meta":
         return f"(SSetMeta {gnat(o['n'])} {gopt(o['flag'], gbool)})"
-    if k == "pre":
-        return f"(SAddPre {gnat(o['n'])} {glist(gnat(i) for i in o['ids'])})"
+    if k in ("pre", "prefrom"):
+        return f"(SAddPre {gnat(o['n'])} {glist(gnat(i) for i in o.get('ids', []))})"
     if k == "resubmit":      # refused on a submitted (sealed) task and changes nothing: as an empty add_pretasks attempt
         return f"(SAddPre {gnat(o['n'])} [])"
     return {"seal": "SSeal", "raw": "SRaw", "full": "SFull"}[k] + " " + gnat(o["n"])
@@ -219,7 +223,7 @@ def oracle(c, case, r):
     for o, a in zip(r["ops"], r["answers"]):
         k = o["op"]
         c.count("op:" + k + ("" if k in ("full", "raw", "jobpath", "seal") else (":frozen" if o["n"] in frozen else ":free")))
-        if k in ("assign", "meta", "pre", "resubmit") and o["n"] in frozen and not a.startswith("rejected:"):
+        if k in ("assign", "meta", "pre", "prefrom", "resubmit") and o["n"] in frozen and not a.startswith("rejected:"):
             c.violation(f"C14:attempt-accepted:{k}", f"a {k} attempt on a frozen configuration was not rejected",
                         dict(desc=case["desc"], ops=case["ops"], op=o, answer=a))
     last = {o["n"]: a for o, a in zip(r["ops"][-n:], r["answers"][-n:])}
@@ -277,7 +281,7 @@ def run(c: Check):
             sealed = [i for i, y in enumerate(before) if y["sealed"]]
             frozen = reachable(before, sealed)
             roots = {a["n"] for a in x["desc"]["actions"] if a["a"] in ("seal", "submit")}
-            if any(o["op"] in ("assign", "meta", "pre") and o["n"] in frozen and o["n"] not in roots for o in r["ops"]):
+            if any(o["op"] in ("assign", "meta", "pre", "prefrom") and o["n"] in frozen and o["n"] not in roots for o in r["ops"]):
                 c.nontrivial.add(json.dumps([x["desc"], x["ops"]], sort_keys=True))
             if not r["same_index"]:
                 c.count("index-shift")
